@@ -190,3 +190,22 @@ pub fn verify_relation(
     }
     Ok(msm(&bases, &coeffs).into_affine() == *final_key)
 }
+
+/// The final key that makes the succinct part of the relation hold for the given (possibly false) combined
+/// value, the other proof elements unchanged (non-hiding proofs): c^-1 * (round commitment - c * h(z) * h').
+/// Such a proof fails only the final linear-time test (MSM of the check polynomial over the key).
+pub fn forge_final_key(h: &G, combined_comm: GP, combined_v: JFr, z: JFr, l_vec: &[G], r_vec: &[G], c: &JFr) -> Option<G> {
+    let cca = combined_comm.into_affine();
+    let mut rc = first_round_challenge(&cca, &z, &combined_v);
+    let hp = h.mul(rc);
+    let mut round = combined_comm + hp.mul(combined_v);
+    let mut us = Vec::new();
+    for (l, r) in l_vec.iter().zip(r_vec) {
+        rc = next_round_challenge(&rc, l, r);
+        us.push(rc);
+        round += l.mul(rc.inverse()?) + r.mul(rc);
+    }
+    let vp = check_poly_eval(&us, &z) * c;
+    let cinv = c.inverse()?;
+    Some((round - hp.mul(vp)).mul(cinv).into_affine())
+}
